@@ -105,7 +105,10 @@ class ImplRun(object):
         ij, mid = 'None', '[]'
         if code in ('G2', 'G3'):
             st = h.state.position
-            lx, ly = st.X_AXIS.nativeToLogical(), st.Y_AXIS.nativeToLogical()
+            if st.X_AXIS.current is None or st.Y_AXIS.current is None:
+                lx = ly = 0.0      # not homed: only reachable while no print is active (the hook ignores the command)
+            else:
+                lx, ly = st.X_AXIS.nativeToLogical(), st.Y_AXIS.nativeToLogical()
             w = dict((k, v) for k, v in items if isinstance(v, float))
             ex, ey = w.get('X', lx), w.get('Y', ly)
             cw = (code == 'G2')
@@ -185,20 +188,30 @@ def first_bad_step(prog, rows):
     return int(m.group(1)) if m else None
 
 
-def shrink(prog, max_rounds=6):
-    """Greedy event deletion keeping model!=impl; each round is one coqc call over all single deletions."""
+def shrink(prog, max_rounds=3):
+    """Greedy event deletion keeping model!=impl; the program is first cut after the first disagreeing step;
+    each round is one coqc call over (at most 24) deletions of blocks of events."""
     cur = prog
+    try:
+        rows = ImplRun(cur).run(with_pos=False)
+        k = first_bad_step(cur, rows)
+        if k is not None and k + 1 < len(cur['events']):
+            cut = dict(cur)
+            cut['events'] = cur['events'][:k + 1]
+            cur = cut
+    except Exception:
+        pass
     for _ in range(max_rounds):
         evs = cur['events']
-        if len(evs) <= 2:
+        if len(evs) <= 3:
             break
         variants = []
-        step = max(1, len(evs) // 40)
-        for k in range(1, len(evs), step):
+        step = max(1, len(evs) // 24)
+        for k in range(1, len(evs) - 1, step):
             v = dict(cur)
             v['events'] = evs[:k] + evs[k + step:]
             variants.append(v)
-        n, dis, _, errors, _ = run_programs(variants, 'shrink', per=len(variants))
+        n, dis, _, errors, _ = run_programs(variants, 'shrink', per=8)
         cand = [d['prog'] for d in dis if d.get('kind') == 'model!=impl']
         if not cand:
             break
